@@ -145,11 +145,19 @@ class AstDB:
 
     def _fix(self, n, parent=None):
         if 'id' in n and n.get('kind', '').endswith('Decl'):
-            self.byid[n['id']] = n
+            old = self.byid.get(n['id'])
+            # clang prints a declaration in full once and as a brief reference elsewhere: keep the full one
+            if old is None or self._weight(old) < self._weight(n):
+                self.byid[n['id']] = n
         n['_parent'] = parent
         for k in n.get('inner', []):
             if isinstance(k, dict) and k:
                 self._fix(k, n)
+
+    @staticmethod
+    def _weight(n):
+        return (1 if 'mangledName' in n else 0) + 2 * len(n.get('inner', [])) + \
+            (100 if any(isinstance(k, dict) and k.get('kind') == 'CompoundStmt' for k in n.get('inner', [])) else 0)
 
     def _demangle(self):
         ms = sorted({n['mangledName'] for n in self.byid.values() if 'mangledName' in n})
